@@ -677,7 +677,7 @@ func (t *MemTable) getSortedRecSafe(msName string, id uint64, tr util.TimeRange,
 	msInfo.mu.RLock()
 	chunk, ok := msInfo.sidMap[id]
 	msInfo.mu.RUnlock()
-	if !ok || chunk == nil || chunk.WriteRec.lastAppendTime < tr.Min || chunk.WriteRec.firstAppendTime > tr.Max {
+	if !ok || chunk == nil {
 		return nil
 	}
 
@@ -685,6 +685,11 @@ func (t *MemTable) getSortedRecSafe(msName string, id uint64, tr util.TimeRange,
 	defer hlp.Release()
 
 	chunk.Mu.Lock()
+	// the time bounds are written under chunk.Mu (appendFields, WriteRec.init): read them under it too
+	if chunk.WriteRec.lastAppendTime < tr.Min || chunk.WriteRec.firstAppendTime > tr.Max {
+		chunk.Mu.Unlock()
+		return nil
+	}
 	writeRec := chunk.WriteRec.rec
 	if writeRec == nil || writeRec.RowNums() == 0 {
 		chunk.Mu.Unlock()
